@@ -148,9 +148,9 @@ def execute_large(case):
     word = ">u2" if tc == "IU2" else ">u4"
     n = P if tc == "IU2" else 2 * P
     rng = np.random.default_rng(case.get("seed", 0) + L)
-    m = rng.integers(0, 2**16 if tc == "IU2" else 2**31, size=(L, n), dtype="int64")
+    m = rng.integers(0, 2**16 if tc == "IU2" else 2**31, size=(L, n), dtype="uint16" if tc == "IU2" else "uint32")
     if tc != "IU2":
-        m = (m & 0x7F7FFFFF) | ((m & 1) << 31)  # finite float32 patterns of both signs
+        m = (m & np.uint32(0x7F7FFFFF)) | ((m & np.uint32(1)) << np.uint32(31))  # finite float32 patterns of both signs
     m = m.astype(word)
     raw = [m[k].tobytes() for k in range(L)]
     spec = synth.product_spec("1.1" if tc == "C*8" else "1.5", images=[synth.image_spec("HH", None, L, P, tc, samples=raw)])
@@ -161,7 +161,7 @@ def execute_large(case):
     with harness.Product(files, case["fs"]) as prod:
         tree = prod.open(**({"records_per_chunk": rpc} if rpc else {}))
         var = tree["imagery/HH/data"]
-        sels = [("full", slice(None)), ("line 0", 0), ("middle line", L // 2), ("last line", L - 1), ("window of 5", slice(L // 3, L // 3 + 5)), ("every 16th", slice(None, None, 16)), ("every 2nd", slice(None, None, 2)), ("first half", slice(0, L // 2)), ("last 3", slice(L - 3, None)), ("every 3rd", slice(1, None, 3)), ("every 5th backwards", slice(None, None, -5)), ("lines beyond 1024", slice(min(1030, L - 1), min(1040, L))), ("full again", slice(None))]
+        sels = [("full", slice(None)), ("line 0", 0), ("middle line", L // 2), ("last line", L - 1), ("window of 5", slice(L // 3, L // 3 + 5)), ("every 16th", slice(None, None, 16)), ("every 2nd", slice(None, None, 2)), ("first half", slice(0, L // 2)), ("last 3", slice(L - 3, None)), ("every 3rd", slice(1, None, 3)), ("every 5th backwards", slice(None, None, -5)), ("lines beyond 1024", slice(min(1030, L - 1), min(1040, L))), ("misaligned bulk", slice(min(50, L // 3), L - min(50, L // 3))), ("all but the last", slice(0, L - 1)), ("full again", slice(None))]
         for label, sel in sels:
             got = np.ascontiguousarray(np.asarray(var.isel(rows=sel).values)).view(view)
             exp = want[sel]
@@ -190,7 +190,17 @@ def large_plan(tier):
     for tc, L, P in (("IU2", 2500, 8), ("C*8", 2100, 3)):
         for rpc in (None, 1, 100, 256, 1000, 1024, 2048):
             cases.append({"type": tc, "L": L, "P": P, "rpc": rpc, "fs": "mcfs"})
+    # >= 4096 lines, line counts that are / are not multiples of the request size, requests larger than the image
+    for tc, L, P, rpcs in (("IU2", 5120, 4, (None, 8192, 1000, 512)), ("C*8", 4096, 2, (None, 4096, 100)), ("IU2", 4097, 1, (None, 4097))):
+        for rpc in rpcs:
+            cases.append({"type": tc, "L": L, "P": P, "rpc": rpc, "fs": "mcfs"})
+    # ~100 MB images: selections beyond 64 MiB, single requests of 5 MB / 80 MB / 96 MB
+    cases.append({"type": "IU2", "L": 1300, "P": 40000, "rpc": None, "fs": "mcfs"})
+    cases.append({"type": "IU2", "L": 1300, "P": 40000, "rpc": 64, "fs": "mcfs"})
+    cases.append({"type": "C*8", "L": 300, "P": 40000, "rpc": 10, "fs": "mcfs"})
     if tier == "thorough":
+        cases.append({"type": "C*8", "L": 300, "P": 40000, "rpc": None, "fs": "local"})
+        cases.append({"type": "IU2", "L": 2600, "P": 50000, "rpc": 100, "fs": "mcfs"})
         cases.append({"type": "IU2", "L": 10000, "P": 4, "rpc": None, "fs": "mcfs"})
         cases.append({"type": "IU2", "L": 10000, "P": 4, "rpc": 512, "fs": "local"})
         cases.append({"type": "C*8", "L": 70000, "P": 1, "rpc": None, "fs": "mcfs"})
@@ -206,6 +216,8 @@ def run(res, tier, seed):
         " patterns / every uint16 pattern rotated over all pixel positions; a case is one product of up to 8 images;"
         " every case loads pixels, so all are non-trivial; distinct = distinct case tuples; plus realistically sized images (640x1000 IU2,"
         " 320x600 C*8: > 1 MiB per chunk at the default rpc) x rpc {default, 64, 1000, 1, 7}, and 120x50000 IU2 / 40x40000 C*8 (one chunk of 12 MiB; 40 MiB in the thorough tier) with"
+        " 5120x4 / 4097x1 IU2 and 4096x2 C*8 (>= 4096 lines; line counts that are and are not multiples of the request size), 1300x40000 IU2 and 300x40000 C*8 (~100 MB: selections"
+        " beyond 64 MiB, requests of 5..96 MB; 260 MB in the thorough tier),"
         " and 2500x8 IU2 / 2100x3 C*8 x rpc {default,1,100,256,1000,1024,2048} (10000 and 70000 lines in the thorough tier), each with"
         " full / single-line / window / strided reads"
     )
